@@ -33,9 +33,10 @@ func TestRainvcBounded(t *testing.T) {
 		}
 	}
 	trackerURLs := func(tor *Torrent) []string {
+		tor.Stats() // round trip through the torrent's run loop: earlier AddTrackers commands are done
 		var out []string
-		for _, tr := range tor.Trackers() {
-			out = append(out, tr.URL)
+		for _, tr := range tor.torrent.trackers {
+			out = append(out, tr.URL())
 		}
 		return out
 	}
@@ -76,6 +77,9 @@ func TestRainvcBounded(t *testing.T) {
 				}
 			}
 			id, ih, name, port, want := tor.ID(), tor.InfoHash(), tor.Name(), tor.Port(), trackerURLs(tor)
+			if len(want) < len(order) {
+				t.Fatalf("violation: torrent has trackers %q after adding %d", want, len(order))
+			}
 			what := fmt.Sprintf("torrent added via magnet=%v, trackers added %v", viaMagnet, order)
 			for restart := 1; restart <= 2; restart++ {
 				if err := s.Close(); err != nil {
